@@ -73,4 +73,51 @@ let handle = function
   | ["state"] -> dump !state
   | f -> "ERR unknown request " ^ String.concat " " f
 
-let () = serve handle
+(* round 3: programs of coq/C11/Prog.v.
+     prog <fuel> <sched> <program tokens>     -> PL<0|1> F <v,..> | <r,..>   or   PL<0|1> ABANDONED | LOCKFAILED | OUTOFFUEL
+   sched: - (canonical: default quantum) | k1,k2,..  (slice lengths in micro-steps, clock advance 0)
+   program tokens: <nvars> <mutex of var 0> .. <nthreads> then per thread: [ instr* ]
+   instr: c m tmo [ instr* ] | w m cv tmo | s cv | b cv | y | z tmo | j t tmo | st t | a k | rd x | wr x k
+   tmo: n | <microseconds> *)
+let ptmo s = if s = "n" then TNone else let us = int_of_string s in TRel (zi (us / 1000000), zi (us mod 1000000))
+let rec pinstrs toks acc = match toks with
+  | "]" :: r -> (List.rev acc, r)
+  | "c" :: m :: t :: "[" :: r -> let (b, r') = pinstrs r [] in pinstrs r' (ICrit (nat (int_of_string m), ptmo t, b) :: acc)
+  | "w" :: m :: c :: t :: r -> pinstrs r (IWait (nat (int_of_string m), nat (int_of_string c), ptmo t) :: acc)
+  | "s" :: c :: r -> pinstrs r (ISignal (nat (int_of_string c)) :: acc)
+  | "b" :: c :: r -> pinstrs r (IBroadcast (nat (int_of_string c)) :: acc)
+  | "y" :: r -> pinstrs r (IYield :: acc)
+  | "z" :: t :: r -> pinstrs r (ISleep (ptmo t) :: acc)
+  | "j" :: t :: tm :: r -> pinstrs r (IJoin (nat (int_of_string t), ptmo tm) :: acc)
+  | "st" :: t :: r -> pinstrs r (IStart (nat (int_of_string t)) :: acc)
+  | "a" :: k :: r -> pinstrs r (ILocal (zi (int_of_string k)) :: acc)
+  | "rd" :: x :: r -> pinstrs r (IRead (nat (int_of_string x)) :: acc)
+  | "wr" :: x :: k :: r -> pinstrs r (IWrite (nat (int_of_string x), zi (int_of_string k)) :: acc)
+  | t :: _ -> failwith ("bad program token " ^ t)
+  | [] -> failwith "program ends inside a thread"
+let pprog toks =
+  match toks with
+  | nv :: r ->
+     let nv = int_of_string nv in
+     let rec take k l acc = if k = 0 then (List.rev acc, l) else (match l with x :: l' -> take (k - 1) l' (nat (int_of_string x) :: acc) | [] -> failwith "short") in
+     let (vm, r) = take nv r [] in
+     (match r with
+      | nt :: r ->
+         let nt = int_of_string nt in
+         let rec threads k l acc = if k = 0 then List.rev acc else
+           (match l with "[" :: l' -> let (c, l'') = pinstrs l' [] in threads (k - 1) l'' (c :: acc) | _ -> failwith "thread code expected") in
+         { codes = threads nt r []; vmutex = vm }
+      | [] -> failwith "short")
+  | [] -> failwith "short"
+let psched s = if s = "-" then canonical else List.map (fun k -> { len = nat (int_of_string k); adv = zi 0 }) (String.split_on_char ',' s)
+let str_zs l = String.concat "," (List.map (fun v -> string_of_int (int_of_z v)) l)
+let handle2 = function
+  | "prog" :: fuel :: sc :: toks ->
+     let p = pprog (List.filter (fun t -> t <> "") toks) in
+     let pl = if prog_properly_locked p then "PL1" else "PL0" in
+     (match prog_outcome (nat (int_of_string fuel)) (psched sc) p with
+      | Finished (v, r) -> Printf.sprintf "%s F %s | %s" pl (str_zs v) (str_zs r)
+      | Abandoned -> pl ^ " ABANDONED" | LockFailed -> pl ^ " LOCKFAILED" | OutOfFuel -> pl ^ " OUTOFFUEL")
+  | f -> handle f
+
+let () = serve handle2
